@@ -160,6 +160,7 @@ func (n *NSQAdmin) handleAdminActions() {
 			"application/json", bytes.NewBuffer(content))
 		if err != nil {
 			n.logf(LOG_ERROR, "failed to POST notification - %s", err)
+			continue
 		}
 		resp.Body.Close()
 	}
